@@ -253,6 +253,8 @@ pub fn block_case_run(ctx: &Ctx, c: &BlockCase, counting: bool) -> PResult {
 			diff: 1,
 			neg: Neg::None,
 			neg_pick: 0,
+			hdr: 0,
+			inp: 0,
 		};
 		let built = w.build(cb.c(), &raw, head).map_err(|e| Fail::new("builder", e))?;
 		let m = built.verdict.clone().map_err(|e| Fail::new("harness:model", format!("{:?}", e)))?;
@@ -269,6 +271,8 @@ pub fn block_case_run(ctx: &Ctx, c: &BlockCase, counting: bool) -> PResult {
 		diff: 1,
 		neg: Neg::None,
 		neg_pick: 0,
+			hdr: 0,
+			inp: 0,
 	};
 	let specs = w.resolve_specs(&raw, head);
 	// leave room for a second coinbase output + kernel (SplitReward control)
@@ -363,6 +367,7 @@ pub fn history_run(ctx: &Ctx, h: &History, counting: bool) -> PResult {
 	let (mut reorgs, mut spends) = (0u32, 0u32);
 	for (i, raw) in h.blocks.iter().enumerate() {
 		let built = w.build(cb.c(), raw, head).map_err(|e| Fail::new("builder", format!("op {}: {}", i, e)))?;
+		header_first(cb.c(), &built.block, raw.hdr, built.verdict.is_ok(), PowMode::Real)?;
 		let res = cb.c().process_block(built.block.clone(), opts(PowMode::Real));
 		match (&built.verdict, res) {
 			(Ok(m), Ok(tip)) => {
